@@ -73,7 +73,7 @@ def twin_cases(pid, tier, seed, wd):
     pairs = []
     for i in range(n):
         prog = enginegen.gen_program(rng, cyclic=(rng.random() < 0.15))
-        ext = {l: rng.randrange(2) for l in enginegen.LEAVES}
+        ext = {l: rng.randrange(2) for l in enginegen.LEAVES}; ext.update({k: 0 for k in enginegen.DERIVED})
         steps = []
         for _ in range(rng.randint(3, 7)):
             if rng.random() < 0.35: steps.append(("mutate", rng.choice(enginegen.LEAVES)))
@@ -108,7 +108,7 @@ def enumerate_schedules(pid, tier, seed, wd, binary):
     total_runs = 0; viol = []; distinct = 0; all_execs = []
     for ci in range(ncases):
         prog = enginegen.gen_program(rng, allow=("follow", "dyn", "disc"))
-        ext = {l: rng.randrange(2) for l in enginegen.LEAVES}
+        ext = {l: rng.randrange(2) for l in enginegen.LEAVES}; ext.update({k: 0 for k in enginegen.DERIVED})
         tgt = rng.choice(enginegen.DERIVED[2:])
         pre = [("build", rng.choice(enginegen.DERIVED))] if rng.random() < 0.6 else []
         mut = rng.choice(enginegen.LEAVES)
